@@ -16,6 +16,7 @@ SPEC = {
     "groups": {
         "hist": ("mism_hist", "pf_hist"),
         "stale": ("mism_stale", "pf_stale"),
+        "conc": ("mism_conc", "pf_conc"),
     },
     "side_keys": ["api_queries", "info_genesis_head_unconfirmed_addr_query_panics"],
     "trusted_base": [
@@ -23,6 +24,7 @@ SPEC = {
         "translator for UxOut.CoinHours / AddUint64 used inside the balance model (validated by C31)",
         "Go map iteration order in ProcessBlock and bolt key order in buildAddrIndex only permute rows / bucket keys; the bolt key order of the unspent pool is handed to the model by the harness",
         "ids: every hash is a small integer assigned by the harness (SHA-256 collision freedom); snapshot hashes are the real 256-bit values",
+        "concurrency group (run-time check only): query goroutines run while one goroutine executes injections and blocks; the verif-tagged hook dbutil.VerifBeforeView yields and pauses 150us before every read transaction during this group; each answer must equal the view of ONE state between the operations completed at its start and started at its end",
         "harness printer; canonical ordering of unordered results (sorted ids; transaction rows by (confirmed, block, id))",
     ],
     "assumptions": ["wf_chain: the accepted chain has numbered blocks, inputs that are distinct unspent outputs, fresh output / transaction ids (established by block acceptance, C02/C04; evaluated on every explored history: code 10 of pf_hist)",
